@@ -17,11 +17,16 @@ import (
 
 type c11T1 struct{ F int }
 type c11T2 struct{ G string }
+type C11Emb struct{ Promoted int }
+type c11T3 struct {
+	*C11Emb // fields promoted through an embedded pointer take resolveIndex's reflect path
+	H int
+}
 
 var c11Ops = []string{
 	"AddGlobal", "AddGlobalFunc", "LookupGlobal", "exec:global", "exec:missing", "exec:field1", "exec:field2",
 	"exec:dump", "exec:dumpName", "exec:isset", "loader.Set", "loader.Delete", "loader.Exists", "loader.Open",
-	"GetTemplate", "Parse", "exec:include",
+	"GetTemplate", "Parse", "exec:include", "exec:field3", "exec:field3b", "loader.SetSame", "loader.SetShorter", "loader.OpenRead",
 }
 
 func c11Do(set *Set, l *InMemLoader, op string) {
@@ -69,6 +74,20 @@ func c11Do(set *Set, l *InMemLoader, op string) {
 		set.Parse("/p.jet", `{{ import "/t.jet" }}x`)
 	case "exec:include":
 		run(`{{ include "/t.jet" }}`, nil)
+	case "exec:field3":
+		run(`{{ .Promoted }}{{ .H }}`, c11T3{&C11Emb{1}, 2})
+	case "exec:field3b":
+		run(`{{ .H }}{{ .Promoted }}{{ .Promoted }}`, &c11T3{&C11Emb{1}, 2})
+	case "loader.SetSame":
+		l.Set("/t.jet", `{{ g }}`)
+	case "loader.SetShorter":
+		l.Set("/t.jet", `x`)
+	case "loader.OpenRead":
+		if f, err := l.Open("/t.jet"); err == nil {
+			buf := make([]byte, 4)
+			f.Read(buf)
+			f.Close()
+		}
 	}
 }
 
